@@ -45,32 +45,31 @@ namespace lang
         if (begin == end)
             return {};
 
-        std::stringstream s;
+        std::string result;
 
-        auto it = begin;
-
-        for (; it + 1 != end; ++it)
+        for (auto it = begin; it != end; ++it)
         {
-            auto pos = s.tellp();
+            std::stringstream s;
 
             s << *it;
 
-            if (s.tellp() != pos)
+            auto element = s.str();
+
+            // empty elements are skipped, so there is never a leading, trailing or doubled infix
+            if (element.empty())
             {
-                s << infix;
+                continue;
             }
+
+            if (!result.empty())
+            {
+                result += infix;
+            }
+
+            result += element;
         }
 
-        s << *it;
-
-        auto str = s.str();
-
-        if (!str.empty() && str.back() == ' ')
-        {
-            return str.substr(0, str.size() - 1);
-        }
-
-        return str;
+        return result;
     }
 
     inline std::string join(const std::vector<std::string>& strs,
